@@ -103,6 +103,7 @@ func ruleStateCoverage(c *Ctx, r *Report) {
 		"remoteRandom":          {"load internal/state.Common.RemoteRandom"},
 		"masterSecret":          {"load internal/state.State12.MasterSecret"},
 		"sequenceNumber":        {"call sync/atomic.LoadUint64", "const 0:uint64"},
+		"remoteSequenceNumber":  {"call sync/atomic.LoadUint64", "const 0:uint64"},
 		"srtpProtectionProfile": {"call (*internal/state.Common).SRTPProtectionProfile"},
 		"peerSRTPMKI":           {"load internal/state.Common.RemoteSRTPMasterKeyIdentifier", "const nil:[]byte"},
 		"localConnectionID":     {"call (*internal/state.Common).LocalConnectionID"},
@@ -121,7 +122,7 @@ func ruleStateCoverage(c *Ctx, r *Report) {
 		missing map[string]string // fields allowed to be absent, with reason
 	}{
 		{"dtls.generateState", nil},
-		{"dtls.generateState13", map[string]string{"peerSRTPMKI": "not exported for DTLS 1.3", "masterSecret": ""}},
+		{"dtls.generateState13", map[string]string{"peerSRTPMKI": "not exported for DTLS 1.3", "masterSecret": "", "remoteSequenceNumber": "a DTLS 1.3 state cannot be serialised, so it needs no receive position"}},
 	} {
 		fn := c.need(r, rule, gen.fn)
 		if fn == nil {
@@ -339,6 +340,12 @@ func ruleStateCoverage(c *Ctx, r *Report) {
 				if !ok {
 					continue
 				}
+				if addrIntoField(ia, tCom, "RemoteSequenceNumber") {
+					// the receive position: restored at the serialised remote epoch
+					idxR := allLeaves(c.Origins(ia.Index, 0), func(v ssa.Value) bool { return isFieldLoad(v, "dtls.State", "remoteEpoch") })
+					r.Check(idxR, "seq-carried", short(fn)+":receive-position", c.ipos(call), "receive position restored at RemoteSequenceNumber[State.remoteEpoch]", "the serialised receive position is restored at an index that is not the serialised remote epoch")
+					continue
+				}
 				idxOK := allLeaves(c.Origins(ia.Index, 0), func(v ssa.Value) bool { return isFieldLoad(v, "dtls.State", "localEpoch") })
 				r.Check(idxOK, "seq-carried", short(fn), c.ipos(call), "counter restored at LocalSequenceNumber[State.localEpoch]", "the serialised record counter is restored at an index that is not the serialised local epoch")
 			}
@@ -350,6 +357,11 @@ func ruleStateCoverage(c *Ctx, r *Report) {
 			call := ci.(*ssa.Call)
 			ia, ok := call.Call.Args[0].(*ssa.IndexAddr)
 			if !ok {
+				continue
+			}
+			if addrIntoField(ia, tCom, "RemoteSequenceNumber") {
+				idxR := allLeaves(c.Origins(ia.Index, 0), func(v ssa.Value) bool { return isCallResult(v, nameHasSuffix("Common).RemoteEpoch")) })
+				r.Check(idxR, "seq-carried", short(fn)+":receive-position", c.ipos(call), "exported receive position = RemoteSequenceNumber[RemoteEpoch()]", "the exported receive position is not the one of the current remote epoch")
 				continue
 			}
 			idxOK := allLeaves(c.Origins(ia.Index, 0), func(v ssa.Value) bool { return isCallResult(v, nameHasSuffix("Common).LocalEpoch")) })
